@@ -188,14 +188,14 @@ Definition lower_unop (op : unop) (t : irty) : lres :=
       match t with
       | Sc F64 => Ok f64 f64 [IFCmpC t; ICondBr i1; IFBinC t; IPhi t t]
       | Sc I64 => Ok i64 i64 [ICmpC t; ICondBr i1; IBinC t; IPhi t t]
-      | Sc I8 => Ok t t []                     (* "a byte is unsigned": nothing emitted, nothing set *)
+      | Sc I8 => Ok i64 i64 [IConv ZExt t i64]   (* a byte is unsigned: only widened (typed Zahl by the checker) *)
       | _ => Err
       end
   | UN_NEGATE =>
       match t with
       | Sc F64 => Ok f64 f64 [IFNeg t]
       | Sc I64 => Ok i64 i64 [IBinC t]
-      (* the third case of the source is a second `case c.ddpinttyp` and can never be taken *)
+      | Sc I8 => Ok i64 i64 [IConv ZExt t i64; IBinC i64]
       | _ => Err
       end
   | UN_NOT => Ok i1 t [IBinC t]
@@ -344,14 +344,25 @@ Definition lower_binop (op : binop) (l r : irty) : lres :=
       | Some cl, Some cr => Ok f64 f64 (cl ++ cr ++ [ICall [f64; f64] [f64; f64]])
       | _, _ => Err
       end
-  | BIN_LOGIC_AND | BIN_LOGIC_OR | BIN_LOGIC_XOR => Ok i64 l [IBin l r]
+  | BIN_LOGIC_AND | BIN_LOGIC_OR | BIN_LOGIC_XOR =>
+      (* two bytes stay a byte, otherwise byte operands are zero-extended *)
+      if irty_eqb l i8 && irty_eqb r i8 then Ok i8 i8 [IBin l r]
+      else match foba l, foba r with
+           | Some (li, cl), Some (ri, cr) => Ok i64 i64 (cl ++ cr ++ [IBin li ri])
+           | _, _ => Err
+           end
   | BIN_MOD =>
       if irty_eqb l i8 && irty_eqb r i8 then Ok i8 i8 [IBin l r]
       else match foba l, foba r with
            | Some (li, cl), Some (ri, cr) => Ok i64 i64 (cl ++ cr ++ [IBin li ri])
            | _, _ => Err
            end
-  | BIN_LEFT_SHIFT | BIN_RIGHT_SHIFT => Ok l l [IBin l r]
+  | BIN_LEFT_SHIFT | BIN_RIGHT_SHIFT =>
+      (* the count is cast to the type of the shifted value: numericCast(rhs, rhsTyp, lhsTyp) *)
+      match numeric_cast r r l with
+      | Some (rv, c) => Ok l l (c ++ [IBin l rv])
+      | None => Err
+      end
   | BIN_EQUAL => Ok i1 i1 (compare_values l r)
   | BIN_UNEQUAL => Ok i1 i1 (compare_values l r ++ [IBinC i1])
   | BIN_LESS | BIN_LESS_EQ | BIN_GREATER | BIN_GREATER_EQ => compare l r
